@@ -604,7 +604,11 @@ def check_inmem(i, ctx):
 
 ROUTES = ["OsuToQua", "BMSToQua", "SMToQua", "O2JToQua", "OsuToQua/rate", "read/default-meta", "write/edit/write",
           # lists with non-default row labels (after a filter / a reverse sort) whose notes differ in their key sounds
-          "constructor/gaps", "constructor/unsorted", "constructor/unsorted/sorted"]
+          "constructor/gaps", "constructor/unsorted", "constructor/unsorted/sorted",
+          # a chart whose notes carry optional keys on SOME objects only, after operations that rebuild the frames
+          "read-sparse-keys/deepcopy", "read-sparse-keys/rate1", "read-sparse-keys/append",
+          # a key carried by EVERY note (an integer column) until a note without it is appended (pandas upcasts the column)
+          "read-dense-key/append-without"]
 
 
 def check_route(route, ctx):
@@ -629,6 +633,33 @@ def check_route(route, ctx):
             m.write()
             edit(m)
             edit(twin)
+        elif route.startswith("read-sparse-keys/"):
+            d0 = default_doc()
+            d0["hos"] = [dict(StartTime=500, Lane=2, KeySounds=[]), dict(StartTime=900, Lane=1, HitSound=2, KeySounds=[]), dict(StartTime=1500, Lane=3, EditorLayer=1, KeySounds=[]),
+                         dict(StartTime=2000, Lane=4, EndTime=2600, KeySounds=[]), dict(StartTime=3000, Lane=1, EndTime=3300, HitSound=4, EditorLayer=2, KeySounds=[])]
+            m = QuaMap.read(render(d0).split("\n"))
+            m.initial_scroll_velocity = 1.0
+            twin = QuaMap.read(render(d0).split("\n"))
+            twin.initial_scroll_velocity = 1.0
+            if route.endswith("deepcopy"):
+                m = m.deepcopy()
+            elif route.endswith("rate1"):
+                m = m.rate(1.0)
+            else:
+                m.hits = m.hits[0:1].append(m.hits[1:])
+        elif route == "read-dense-key/append-without":
+            from reamber.quaver import QuaHit
+            from reamber.quaver.lists.notes import QuaHitList
+
+            def mk():
+                d0 = default_doc()
+                d0["hos"] = [dict(StartTime=500, Lane=2, EditorLayer=1, KeySounds=[]), dict(StartTime=900, Lane=1, EditorLayer=2, KeySounds=[])]
+                x = QuaMap.read(render(d0).split("\n"))
+                x.initial_scroll_velocity = 1.0
+                return x
+            m, twin = mk(), mk()
+            m.hits = m.hits.append(QuaHitList([QuaHit(4000, 2, [])]))
+            twin.hits = twin.hits.append(QuaHitList([QuaHit(4000, 2, [])]))
         elif route.startswith("constructor/"):
             m = starts.make("qua", route.split("/")[1])
             m.initial_scroll_velocity = 1.0
